@@ -52,8 +52,11 @@ def toNum (element : Bytes) (minimaldata : Bool) (maxSize : Nat) : Except Py.PyE
   if element.length > maxSize then .error .value
   else
     let x := decodeNum element
-    -- `encode_num(x)` cannot raise here for max_size ≤ 8; the model keeps the call shape
-    if minimaldata && decide (encodeNumRaw x ≠ element) then .error .value
+    if minimaldata then
+      -- `encode_num(x) != element`: `encode_num` itself refuses a value outside int64 (an element of 9 bytes or more)
+      match encodeNum x with
+      | .error e => .error e
+      | .ok b => if b ≠ element then .error .value else .ok x
     else .ok x
 
 /-- `_to_bool`: `next((True for x in element[:-1] if x != 0), bool(element and element[-1] not in {0, 0x80}))`. -/
